@@ -1972,6 +1972,22 @@ func (c *Ctx) rulePageCursor() {
 		}
 	})
 	c.ob("R-PAGECURSOR", "GetKeysPaged:after-key-not-rewritten", f.Pos(), stores == 0, fmt.Sprintf("GetKeysPaged assigns the request's AfterKey (%d stores): defaulting it to the prefix makes the strict cursor comparison drop the key equal to the prefix", stores))
+	// no page is answered before the state was asked for its keys
+	var listing *ssa.Call
+	eachInstr(f, func(_ *ssa.BasicBlock, _ int, in ssa.Instruction) {
+		if call, ok := in.(*ssa.Call); ok && call.Call.IsInvoke() && call.Call.Method.Name() == "GetKeysWithPrefix" {
+			listing = call
+		}
+	})
+	early := ""
+	if listing != nil {
+		for _, r := range returnsOf(f) {
+			if len(r.Results) == 1 && isNilConst(resultOf(r, 0)) && !instrDominates(listing, r) {
+				early = c.pos(r.Pos())
+			}
+		}
+	}
+	c.ob("R-PAGECURSOR", "GetKeysPaged:no-page-before-the-listing", f.Pos(), listing != nil && early == "", "a successful (empty) page is returned at "+early+" without the keys of the state having been listed: every later page of the enumeration is lost")
 	n := 0
 	eachInstr(f, func(_ *ssa.BasicBlock, _ int, in ssa.Instruction) {
 		call, ok := in.(*ssa.Call)
